@@ -137,13 +137,14 @@ def r3(ctx):
                 ctx.ok(rule, s.key, detail)
             continue
         n += 1
-        if s.key in table:
-            detail["discharged_by"] = "D6: " + table[s.key]
+        ent = TT.table_entry(table, s)
+        if ent is not None:
+            detail["discharged_by"] = "D6: " + ent
             ctx.ok(rule, s.key, detail)
         else:
             ctx.fail(rule, s.key, "argument-derived value reaches %s without a dominating test (%s): an inadmissible argument panics "
                                   "instead of returning an error" % (s.kind, "; ".join(X.render(e)[:80] for e, t in zip(s.tops, s.tainted) if t)),
-                     s.loc, detail)
+                     s.loc, detail, alt_keys=[s.okey])
     ctx.floor(rule, n, "C10.R3.sites")
 
 
